@@ -73,7 +73,7 @@ func run(c *lib.Ctx) error {
 			ms = []string{"CONSTANTS Clients = {1, 2} MaxOps = 2 Pool <- PoolAll\n", "CONSTANTS Clients = {1, 2, 3} MaxOps = 1 Pool <- PoolAll\n", "CONSTANTS Clients = {1, 2, 3} MaxOps = 2 Pool <- PoolSmall\n"}
 		}
 		for _, m := range ms {
-			r, err := c.TLC("MCDaemonLin "+m[10:len(m)-1], lib.TLCRun{Dir: dir, Module: "MCDaemonLin", Workers: 2, Timeout: 12 * time.Minute, HeapGB: 6,
+			r, err := c.TLC("MCDaemonLin "+m[10:len(m)-1], lib.TLCRun{Dir: dir, Module: "MCDaemonLin", Workers: 1, Timeout: 12 * time.Minute, HeapGB: 6,
 				Files: map[string][]byte{"MCDaemonLin.cfg": []byte(m + "SPECIFICATION Spec\nINVARIANT NoDupSeq\nINVARIANT NoLostAdd\nINVARIANT SeqGrows\nINVARIANT StoreOK\nINVARIANT FinalAgrees\n")}})
 			if err != nil {
 				fail(err)
@@ -157,7 +157,7 @@ func judgeAll(c *lib.Ctx, dir string, hists []History) error {
 	}
 	var mu sync.Mutex
 	var firstErr error
-	lib.Parallel(len(batches), 4, func(bi int) {
+	lib.Parallel(len(batches), 2, func(bi int) {
 		hs := batches[bi].hs
 		for len(hs) > 0 {
 			bad, err := validate(c, dir, fmt.Sprintf("TraceDaemonLin(V %d)", bi), hs)
@@ -192,7 +192,7 @@ func validate(c *lib.Ctx, dir, name string, hs []History) (int, error) {
 		starts = append(starts, len(evs))
 		evs = append(evs, h.Rebased(len(evs), i+1)...)
 	}
-	v, err := lib.ValidateTrace(c, name, dir, "TraceDaemonLin", evs, 10*time.Minute)
+	v, err := lib.ValidateTrace(c, name, dir, "TraceDaemonLin", evs, 14*time.Minute)
 	if err != nil {
 		return 0, err
 	}
